@@ -428,6 +428,17 @@ def oracle_geonet(case, rec):
     if ok:
         rec.close(np.asarray(cl, dtype=float), cos, "grid_cos_lat", rtol=0,
                   atol=EPS_COS)
+    # ... and its three companions (single precision like cos_lat)
+    for nm, refv in (("sin_lat", np.sin(np.deg2rad(lat))),
+                     ("cos_lon", np.cos(np.deg2rad(lon))),
+                     ("sin_lon", np.sin(np.deg2rad(lon)))):
+        ok, v = rec.call(nm, getattr(g, nm))
+        if ok:
+            # the argument itself is a float32 angle: |d sin| <= |d angle|
+            rec.close(np.asarray(v, dtype=float), refv, "grid_" + nm, rtol=0,
+                      atol=EPS_COS + 2.0 ** -23 * np.deg2rad(
+                          max(1.0, float(np.abs(lon).max()),
+                              float(np.abs(lat).max()))))
 
     U = ((A + A.T) > 0).astype(np.int64)
     Ap = U + np.eye(n, dtype=np.int64) if not directed else None
